@@ -49,10 +49,10 @@ def run(pid, lean_module, theorems, scenarios, rule, tier, seed, level="proof", 
     known = [k for k in core.load_known() if k["property"] == pid]
     known_classes = {k["class"] for k in known if k["status"] == "known"}
 
-    def one(ix_sc):
+    def one(ix_sc, salt=0):
         ix, (name, fn) = ix_sc
-        net = cluster.Net(f"{pid}_{ix}")
-        rng = core.XorShift(seed * 7919 + ix + 1)
+        net = cluster.Net(f"{pid}_{ix}_{salt}")
+        rng = core.XorShift(seed * 7919 + ix + 1 + salt * 1000003)
         try:
             fails = fn(net, rng) or []
             dis = cluster.compare(net)
@@ -81,6 +81,20 @@ def run(pid, lean_module, theorems, scenarios, rule, tier, seed, level="proof", 
             if any(f.cls == k["class"] for f in failures): print(f"KNOWN-FINDING: property={pid} {k['what']}")
             else: notes.append(f"known finding {k['id']} did not reproduce")
     new = [f for f in failures if f.cls not in known_classes]
+    searched = 0
+    if not new and disagreements:
+        # the tie is broken: search for a failing input — the scenarios on which model and implementation differ, under other delivery orders
+        names = sorted({d[0] for d in disagreements}, key=lambda n: (0 if "staggered" in n else 1, 0 if n.startswith("lazy") else 1, n))[:6]
+        jobs = [((ix, sc), salt) for ix, sc in enumerate(scenarios) if sc[0] in names for salt in range(1, 81)]
+        with ThreadPoolExecutor(max_workers=max(2, core.JOBS // 2)) as ex:
+            extra = list(ex.map(lambda j: one(j[0], j[1]), jobs))
+        searched = len(extra)
+        for r in extra:
+            if "error" in r: continue
+            for f in r["fails"]:
+                f.case = r["script"]; f.scenario = r["name"] + " (search: another delivery order)"; failures.append(f)
+        new = [f for f in failures if f.cls not in known_classes]
+        log(f"[{pid}] tie broken ({len(disagreements)} disagreements): searched {searched} more delivery orders of the differing scenarios, {len(new)} failing")
     seen = set()
     for f in new:
         if f.cls in seen: continue
